@@ -1,4 +1,5 @@
 import BobModel.Util.Bytes
+import BobModel.Generated.ConstsC08
 /-
 Model of the artifact extraction path of pym/bob/archive.py (`TarHelper._extract`,
 `TarHelper.__extractPackage`), of `_tarExtractFilter` (pym/bob/utils.py), of the per-member
@@ -144,23 +145,23 @@ def walk (fs : FS) (strict follow : Bool) : Nat → Path → List Name → Excep
     if c = dot then walk fs strict follow n cur rest
     else if c = dotdot then walk fs strict follow n cur.dropLast rest
     else
-      match fs.look (cur ++ [c]) with
+      match symTarget fs (cur ++ [c]) with
+      | some t =>
+        if rest = [] ∧ follow = false then .ok (cur ++ [c])
+        else walk fs strict follow n (if isAbs t then [] else cur) (comps t ++ rest)
       | none =>
-        if strict then (if rest = [] then .ok (cur ++ [c]) else .error .enoent)
-        else walk fs strict follow n (cur ++ [c]) rest
-      | some (.dir _) => walk fs strict follow n (cur ++ [c]) rest
-      | some (.ref i) =>
-        match fs.inode i with
-        | some ⟨.symlink t, _⟩ =>
-          if rest = [] ∧ follow = false then .ok (cur ++ [c])
-          else walk fs strict follow n (if isAbs t then [] else cur) (comps t ++ rest)
-        | _ =>
-          if rest = [] then .ok (cur ++ [c])
-          else if strict then .error .enotdir
-          else walk fs strict follow n (cur ++ [c]) rest
+        -- realpath treats a missing entry, a directory and any other non-link alike
+        if strict = false then walk fs strict follow n (cur ++ [c]) rest
+        else
+          match fs.look (cur ++ [c]) with
+          | some (.dir _) => walk fs strict follow n (cur ++ [c]) rest
+          | none => if rest = [] then .ok (cur ++ [c]) else .error .enoent
+          | some (.ref _) => if rest = [] then .ok (cur ++ [c]) else .error .enotdir
 
 structure Cfg where
   fuel : Nat
+  /-- `_tarExtractFilter` is installed by `tarfileOpen` and checks `realpath(name)` -/
+  filter : Bool
   /-- repair: member names (after the `content/` prefix) must consist of plain components -/
   canonNames : Bool
   /-- repair: the directory that receives the member must resolve inside the destination -/
@@ -171,9 +172,14 @@ structure Cfg where
   lnkCheck : Nat
   deriving Repr
 
-def Cfg.asIs (fuel : Nat) : Cfg := ⟨fuel, false, false, 0⟩
-def Cfg.lexical (fuel : Nat) : Cfg := ⟨fuel, false, false, 1⟩
-def Cfg.repaired (fuel : Nat) : Cfg := ⟨fuel, true, true, 2⟩
+/-- the dispatch before commit 8ba1640 (kept for the refutation witnesses) -/
+def Cfg.asIs (fuel : Nat) : Cfg := ⟨fuel, true, false, false, 0⟩
+/-- a repair that only normalises the hard link name (insufficient, see Props/C08) -/
+def Cfg.lexical (fuel : Nat) : Cfg := ⟨fuel, true, false, false, 1⟩
+def Cfg.repaired (fuel : Nat) : Cfg := ⟨fuel, true, true, true, 2⟩
+/-- what the current source does (regenerated constants) -/
+def Cfg.current (fuel : Nat) : Cfg :=
+  ⟨fuel, Consts.C08.filterInstalled, Consts.C08.canonNames, Consts.C08.parentCheck, Consts.C08.lnkCheck⟩
 
 /-- `os.path.realpath` of an absolute path -/
 def realpath (fs : FS) (cfg : Cfg) (p : List Name) : Except WErr Path := walk fs false true cfg.fuel [] p
@@ -304,14 +310,11 @@ structure Member where
 inductive Err
   | unsupportedArtifact | invalidHardLink | unknownFile | filter
   | filterName | filterParent | filterLink
-  | oserror | keyerror | unsupported
+  | oserror | keyerror | streamerror | internal | unsupported
   deriving DecidableEq, Repr
 
-def contentSlash : Str := ['c', 'o', 'n', 't', 'e', 'n', 't', '/']
-def contentName : Str := ['c', 'o', 'n', 't', 'e', 'n', 't']
-def metaName : Str := ['m', 'e', 't', 'a']
-def auditMember : Str :=
-  ['m', 'e', 't', 'a', '/', 'a', 'u', 'd', 'i', 't', '.', 'j', 's', 'o', 'n', '.', 'g', 'z']
+def contentSlash : Str := Consts.C08.contentPrefix
+def auditMember : Str := Consts.C08.auditMember
 
 /-- all components of a relative name are plain: no empty component, no `.`, no `..` -/
 def canonical (s : Str) : Bool :=
@@ -324,8 +327,19 @@ def tarFilter (cfg : Cfg) (fs : FS) (dest : List Name) (m : Member) : Except Err
   | .error _ => .error .unsupported
   | .ok path =>
     let name := lstripSlash m.name
-    if cfg.canonNames = true ∧ canonical name = false then .error .filterName else
-    let nc := comps name
+    match realpath fs cfg (path ++ comps name) with
+    | .error _ => .error .unsupported
+    | .ok full =>
+      if cfg.filter = true ∧ path.isPrefixOf full = false then .error .filter else .ok { m with name := name }
+
+/-- the repaired dispatch: extra rejections before `tar.extract` (`TarHelper.__checkMember` of
+the proposed patch); the dispatch that exists performs none of them -/
+def checkMember (cfg : Cfg) (fs : FS) (dest : List Name) (m : Member) : Except Err Unit :=
+  match realpath fs cfg dest with
+  | .error _ => .error .unsupported
+  | .ok path =>
+    if cfg.canonNames = true ∧ canonical m.name = false then .error .filterName else
+    let nc := comps m.name
     let parentOk : Except Err Unit :=
       if cfg.parentCheck = true then
         match realpath fs cfg (path ++ nc.dropLast) with
@@ -335,29 +349,39 @@ def tarFilter (cfg : Cfg) (fs : FS) (dest : List Name) (m : Member) : Except Err
     match parentOk with
     | .error e => .error e
     | .ok () =>
-      match realpath fs cfg (path ++ nc) with
-      | .error _ => .error .unsupported
-      | .ok full =>
-        if path.isPrefixOf full = false then .error .filter else
-        if m.type = .lnk ∧ cfg.lnkCheck = 2 then
-          if canonical m.linkname = false then .error .filterLink else
-          let src := path ++ comps m.linkname
-          match realpath fs cfg src, kres fs cfg false src, kres fs cfg false (path ++ nc) with
-          | .ok rsrc, .ok s, .ok d =>
-            if path.isPrefixOf rsrc = false then .error .filterLink else
-            match fs.look s, fs.look d with
-            | some (.ref i), none =>
+      if m.type = .lnk ∧ cfg.lnkCheck = 2 then
+        let src := if isAbs m.linkname then comps m.linkname else path ++ comps m.linkname
+        match realpath fs cfg src with
+        | .error _ => .error .unsupported
+        | .ok rsrc =>
+          if path.isPrefixOf rsrc = false then .error .filterLink else
+          -- not islink(source) and isfile(source)
+          match kres fs cfg false src with
+          | .error _ => .error .filterLink
+          | .ok s =>
+            match fs.look s with
+            | some (.ref i) =>
               match fs.inode i with
-              | some ⟨.file _, _⟩ => .ok { m with name := name }
+              | some ⟨.file _, _⟩ =>
+                -- not lexists(destination)
+                match kres fs cfg false (path ++ nc) with
+                | .ok d => if (fs.look d).isSome then .error .filterLink else .ok ()
+                | .error _ => .ok ()
               | _ => .error .filterLink
-            | _, _ => .error .filterLink
-          | _, _, _ => .error .filterLink
-        else .ok { m with name := name }
+            | _ => .error .filterLink
+      else .ok ()
 
 /-- `TarFile._extract_member` for a member that passed the filter (`m.name` is the filtered
 name), including the creation of the upper directories and the attribute calls.
-`prev`: names of the members seen before (as renamed by the dispatch), for `_find_link_target`. -/
-def extractMember (cfg : Cfg) (fs : FS) (dest : List Name) (prev : List Str) (m : Member) : FS × Option Err :=
+`prev`: names and types of the members seen before (as renamed by the dispatch, latest first), for
+`_find_link_target`. -/
+def linkFallback (prev : List (Str × MType)) (linkname : Str) (notFound : Err) : Err :=
+  match prev.find? (fun n => decide (normpath n.1 = normpath linkname)) with
+  | none => notFound
+  | some (_, .reg) => .streamerror      -- re-extraction of an earlier regular member: the stream cannot seek back
+  | some _ => .unsupported
+
+def extractMember (cfg : Cfg) (fs : FS) (dest : List Name) (prev : List (Str × MType)) (m : Member) : FS × Option Err :=
   let full := dest ++ comps m.name
   let up := full.dropLast
   let r1 := if up ≠ [] ∧ kexists fs cfg up = false then makedirs fs cfg up.length up else (fs, KRes.ok)
@@ -392,9 +416,8 @@ def extractMember (cfg : Cfg) (fs : FS) (dest : List Name) (prev : List Str) (m 
         let r := kLink fs1 cfg src full
         match r.2 with
         | .ok => (chmodFollow r.1 cfg full m.mode, none)
-        | _ => (r.1, some .unsupported)
-      else if prev.any (fun n => decide (normpath n = normpath m.linkname)) then (fs1, some .unsupported)
-      else (fs1, some .keyerror)
+        | _ => (r.1, some (linkFallback prev m.linkname .unsupported))
+      else (fs1, some (linkFallback prev m.linkname .keyerror))
     | .fifo =>
       let r := kMknod fs1 cfg full .fifo
       match r.2 with
@@ -420,42 +443,48 @@ def dispatch (cfg : Cfg) (m : Member) : Except Err Action :=
     if m.type = .lnk then
       if contentSlash.isPrefixOf m.linkname = false then .error .invalidHardLink
       else
-        let ln := m.linkname.drop 8
+        let ln := m.linkname.drop Consts.C08.stripLen
         if cfg.lnkCheck = 1 ∧ (isAbs ln ∨ (normpath ln).2.head? = some dotdot) then .error .invalidHardLink
-        else .ok (.content { m with name := m.name.drop 8, linkname := ln })
-    else .ok (.content { m with name := m.name.drop 8 })
+        else .ok (.content { m with name := m.name.drop Consts.C08.stripLen, linkname := ln })
+    else .ok (.content { m with name := m.name.drop Consts.C08.stripLen })
   else if m.name = auditMember then .ok .audit
-  else if m.name = contentName ∨ m.name = metaName then .ok .skip
-  else .error .unknownFile
+  else if Consts.C08.skipNames.contains m.name then .ok .skip
+  else if Consts.C08.unknownRejected then .error .unknownFile
+  else .ok .skip
 
 structure St where
   fs : FS
   err : Option Err
-  prev : List Str
+  prev : List (Str × MType)
   deriving Repr
 
 def stepMember (cfg : Cfg) (dest audit : List Name) (st : St) (m : Member) : St :=
   if st.err.isSome then st else
   match dispatch cfg m with
   | .error e => { st with err := some e }
-  | .ok .skip => { st with prev := m.name :: st.prev }
+  | .ok .skip => { st with prev := (m.name, m.type) :: st.prev }
   | .ok .audit =>
-    if m.type ≠ .reg then { st with err := some .unsupported } else
+    -- `tar.extractfile(f)`: a file object only for regular members
+    if m.type = .sym ∨ m.type = .lnk then { st with err := some .streamerror } else
+    if m.type ≠ .reg then { st with err := some .internal } else
     let r := kWrite st.fs cfg audit m.data
     match r.2 with
-    | .ok => { fs := r.1, err := none, prev := m.name :: st.prev }
+    | .ok => { fs := r.1, err := none, prev := (m.name, m.type) :: st.prev }
     | .unsup => { st with fs := r.1, err := some .unsupported }
     | _ => { st with fs := r.1, err := some .oserror }
   | .ok (.content m') =>
-    match tarFilter cfg st.fs dest m' with
+    match checkMember cfg st.fs dest m' with
     | .error e => { st with err := some e }
-    | .ok m'' =>
-      let r := extractMember cfg st.fs dest st.prev m''
-      { fs := r.1, err := r.2, prev := m'.name :: st.prev }
+    | .ok () =>
+      match tarFilter cfg st.fs dest m' with
+      | .error e => { st with err := some e }
+      | .ok m'' =>
+        let r := extractMember cfg st.fs dest st.prev m''
+        { fs := r.1, err := r.2, prev := (m'.name, m'.type) :: st.prev }
 
 /-- `__extractPackage(tar, audit, content)`; `vsn` is the pax header `bob-archive-vsn` -/
 def extractPackage (cfg : Cfg) (dest audit : List Name) (vsn : Option Str) (fs : FS) (ms : List Member) : St :=
-  if vsn.getD ['0'] ≠ ['1'] then ⟨fs, some .unsupportedArtifact, []⟩
+  if vsn.getD Consts.C08.vsnDefault ≠ Consts.C08.vsnAccepted then ⟨fs, some .unsupportedArtifact, []⟩
   else ms.foldl (stepMember cfg dest audit) ⟨fs, none, []⟩
 
 /-- `TarHelper._extract(fileobj, audit, content)` after the archive was opened -/
@@ -473,10 +502,10 @@ def extractAll (cfg : Cfg) (dest audit : List Name) (vsn : Option Str) (fs : FS)
 the library lists the tree below `content` as the members `rels` (names relative to the tree,
 hard link names relative to the tree) -/
 def packMembers (auditBase : Str) (auditData : Str) (rels : List Member) : List Member :=
-  ⟨metaName ++ [slash] ++ auditBase, .reg, [], 0o644, auditData⟩ ::
-  ⟨contentName, .dir, [], 0o755, []⟩ ::
-  rels.map (fun m => { m with name := contentSlash ++ m.name,
-                              linkname := if m.type = .lnk then contentSlash ++ m.linkname else m.linkname })
+  ⟨Consts.C08.packMetaDir ++ auditBase, .reg, [], 0o644, auditData⟩ ::
+  ⟨Consts.C08.packContent, .dir, [], 0o755, []⟩ ::
+  rels.map (fun m => { m with name := Consts.C08.packContent ++ [slash] ++ m.name,
+                              linkname := if m.type = .lnk then Consts.C08.packContent ++ [slash] ++ m.linkname else m.linkname })
 
 /-! ### acceptance of a download (`LocalBuilder._downloadPackage`, builder.py) -/
 
@@ -495,8 +524,8 @@ structure DlObs (Digest : Type) where
 hash; `none` = nothing downloaded (the package is built). -/
 def acceptDownload {Digest : Type} [DecidableEq Digest] (o : DlObs Digest) : Except DlErr (Option Digest) :=
   if o.wasDownloaded then
-    if o.auditExists = false then .error .missingAudit
-    else if o.auditResultHash ≠ o.workspaceHash then .error .corrupt
+    if Consts.C08.auditPresenceChecked = true ∧ o.auditExists = false then .error .missingAudit
+    else if Consts.C08.resultHashChecked = true ∧ o.auditResultHash ≠ o.workspaceHash then .error .corrupt
     else .ok (some o.workspaceHash)
   else .ok none
 
